@@ -297,3 +297,11 @@ func (s *Stats) evalFast(c Case, nontrivial bool, classes ...string) {
 	}
 	s.mu.Unlock()
 }
+
+func TestMain(m *testing.M) {
+	code := m.Run()
+	if os.Getenv("VERIF_SCRATCH") == "" && scratchRoot != "" {
+		os.RemoveAll(scratchRoot)
+	}
+	os.Exit(code)
+}
